@@ -66,7 +66,7 @@ def cases(tier, seed):
         out.append(("default-chunk", {"D": 2 + k % 3, "repeat": bool(k % 4 == 3), "k": k}, 40.0))
     for k in range(16 if q else 400):
         out.append(("history", {"D": 1 + k % 4, "repeat": bool(k % 3 == 2), "k": k}, 6.0))
-    # pinned witness of the list-mode int64 wrap-around (finding C18-size-list-int64-wrap) + the same size in repeated mode
+    # product sets of 6.4e19 tuples in both modes (list mode wrapped around in int64 before fix 8f5e594), always run first
     out.append(("huge-size", {"mode": "list", "n": 2000, "k": 6, "pinned": True}, 1e9))
     out.append(("huge-size", {"mode": "repeated", "n": 2000, "k": 6, "pinned": True}, 1e9))
     for k in range(12 if q else 200):
